@@ -39,7 +39,10 @@ def closing_hyphen_groups():
                 return "?"
             text = flat(st.value)
             m = re.search(r"\(\?P<(\w+)>-\?\)\{(tag_e|stmt_e|comment_e)\}$", text)
-            pats.setdefault(st.targets[0].id, (m.group(1) if m else None, text))
+            key = st.targets[0].id
+            while key in pats:
+                key += "'"
+            pats[key] = (m.group(1) if m else None, text)
     return pats
 
 
@@ -173,9 +176,14 @@ _branch(T("TOKEN_CONTENT"), "content", ["rstrip"], post_content, None)
 def pattern_shape():
     obs = []
     for name, (grp, text) in sorted(H.items()):
-        if name == "content_pattern":
+        if name.startswith("content_pattern"):
             continue
         obs.append(flow.ob(f"{name}:closing-delimiter-is-preceded-by-an-optional-hyphen-group", grp is not None, f"h = {grp}; pattern = {text[:120]}"))
+    # a text run ends at the next opening delimiter or at the END of the source: `$` also
+    # matches before a final newline and would split "a\n" into two runs (the second one
+    # is then stripped by a pending closing hyphen), `\Z` does not
+    for cname, ctext in sorted((k, v[1]) for k, v in H.items() if k.startswith("content_pattern")):
+      obs.append(flow.ob(f"{cname}:a-text-run-ends-only-at-an-opening-delimiter-or-the-end-of-the-source(\\Z)", ctext.endswith("|\\Z)") and "$" not in ctext, f"pattern = {ctext[:140]}", replay_schema="code", replay_extra={"code": REPLAY_EOL}))
     # rendering side: comment/doc nodes write nothing, content writes exactly its text
     for m, cls, expect in (("liquid.builtin.tags.comment_tag", "CommentNode", "nothing"), ("liquid.builtin.tags.doc_tag", "DocNode", "nothing"), ("liquid.builtin.tags.inline_comment_tag", "InlineCommentNode", "nothing"), ("liquid.builtin.content", "ContentNode", "text")):
         res = load.find_method(m, cls, "render_to_output")
@@ -192,6 +200,14 @@ not_covered("C10", "that the regular expressions delimit text, raw blocks and co
             "nested block comments (comment_depth > 0 branch) are covered by the bounded check only", "the liquid tag's inner tokenizer (bounded check)")
 
 bounded("C10", "bounded/C10.py")
+
+REPLAY_EOL = r'''
+def run(m):
+    from liquid import Environment
+    got = Environment().from_string("{{ x -}}a\n").render(x="X")
+    return {"violated": got != "Xa\n", "observed": got}
+'''
+
 
 REPLAY = r'''
 def run(m):
